@@ -964,8 +964,8 @@ def compare_measures(ctx):
     items = c13.measure_ops(rng, ctx.quick(), 'C05')
     for c in c13.structured_concurrences(rng, 20 if ctx.quick() else 200):
         for name, f in (('eof', E.get_eof_2qubit), ('gme', E.get_gme_2qubit)):
-            with c13.stub_concurrence(c), np.errstate(all='ignore'):
-                r = gskip(lambda: float(f(np.eye(4) / 4)))
+            with c13.stub_concurrence(c) as stub_ok, np.errstate(all='ignore'):
+                r = gskip(lambda: float(f(np.eye(4) / 4))) if stub_ok else SKIP
             items.append((f'C05 {name} {f2b(c)}', r))
     for ev in [[0, 0, 0, 0], [0, 0, 0, 1], [1e-18, 1e-17, 1e-17, 2e-17], [0.0625] * 4] + [sorted((rng.dirichlet(np.ones(4)) ** 2).tolist()) for _ in range(10)]:
         items.append(('C05 wread ' + ';'.join(str(f2b(x)) for x in ev), c13.read_with_spectrum(ev, lambda: E.get_concurrence_2qubit(np.eye(4) / 4))))
